@@ -4,7 +4,7 @@ against the REAL host classes and records the host-side level sequence (DESIGN.m
 stdin : {"jobs": [{"src": script, "input": "ar 14 v v v ...\n"}], "timeout": s}
 stdout: [{"events": [line, ...], "exc": None | [kind, msg]}]
 events: "S <text>"            SerialMonitor.write(value)   (str(value); bools print True/False)
-        "D <num>/<den>"       one call of the package-level sleep (exact value of the argument)
+        "D <num>/<den> [fade]" one call of the package-level sleep (exact value of the argument; "fade" when called from RGBLed.fade)
         "AR <pin> <v>"        analog_read
         "L <pin> <b>"         completed Led.set_brightness (brightness stored)
         "C <rp> <gp> <bp> <r> <g> <b>"   completed RGBLed.set_color
@@ -49,6 +49,7 @@ def parse_input(text):
 
 def run_job(job):
     events = []
+    where = []          # the host method a sleep is called from (the device rounds fade delays differently)
     ar = parse_input(job.get("input"))
     idx = {}
 
@@ -62,7 +63,7 @@ def run_job(job):
     def rec_sleep(duration, *, sleep_func=None):
         if duration < 0:
             raise ValueError("duration must be non-negative")
-        events.append("D " + frac(duration))
+        events.append("D " + frac(duration) + (" " + where[-1] if where else ""))
 
     U.sleep = rec_sleep
     for modname, mod in list(sys.modules.items()):
@@ -109,6 +110,19 @@ def run_job(job):
 
     Led.set_brightness = sb
     RGBLed.set_color = sc
+
+    def scoped(cls, name):
+        orig = getattr(cls, name)
+
+        def f(self, *a, **k):
+            where.append(name)
+            try:
+                return orig(self, *a, **k)
+            finally:
+                where.pop()
+        setattr(cls, name, f)
+
+    scoped(RGBLed, "fade")
 
     Servo = getattr(A, "Servo", None)
     if Servo is not None:
